@@ -250,5 +250,23 @@ func vhStorageStep(ids []SlabID) {
 	}
 	vhAssert(st.Deltas() == uint(npending), "Deltas counts pending changes")
 	vhAssert(st.DeltasWithoutTempAddresses() == uint(nowned), "owned pending count")
+	// pending size: sum of the sizes of owned pending (non-deleted) slabs
+	wantSize := uint64(0)
+	for _, s := range states {
+		if slab, ok := st.deltas[s.id]; ok && slab != nil && s.id.address != AddressUndefined {
+			wantSize += uint64(slab.ByteSize())
+		}
+	}
+	vhAssert(st.DeltasSizeWithoutTempAddresses() == wantSize, "owned pending size")
+	// has-unsaved-changes per owner (incl. the temporary address and an owner with nothing pending)
+	for _, a := range []Address{vhAddr(1), vhAddr(2), AddressUndefined, vhAddr(9)} {
+		want := false
+		for _, s := range states {
+			if _, ok := st.deltas[s.id]; ok && s.id.address == a {
+				want = true
+			}
+		}
+		vhAssert(st.HasUnsavedChanges(a) == want, "has-unsaved-changes per owner")
+	}
 	vhReach("storage-step-done")
 }
